@@ -10,6 +10,7 @@ import PetgraphModel.Proofs.C12W2Complete
 import PetgraphModel.Proofs.C12W4FromElements
 import PetgraphModel.Proofs.C12W4PrimDirected
 import PetgraphModel.Proofs.C12W4Heap
+import PetgraphModel.Proofs.C12W6Order
 /-
 C12 — `min_spanning_tree` yields a minimum spanning forest; `min_spanning_tree_prim` a minimum
 spanning tree of the first node's component.
@@ -37,7 +38,7 @@ theorem C12_judge_kruskal_sound (g : MGraph) (ns : List Nat) (es : List EdgeEl) 
     (h : judgeStream g false ns es feN feE = none) :
     ns = g.nodes ∧ ∃ S, absEdges ns es = some S ∧ S.length = es.length ∧
       ∃ M R, Accepted g.nodes g.edges bruteBound S M R ∧ M.length = es.length := by
-  unfold judgeStream at h
+  unfold judgeStream judgeStreamK at h
   split at h
   · cases h
   · rename_i hns
@@ -71,7 +72,7 @@ component's edges (cycle property; brute-force minimality under the bound). -/
 theorem C12_judge_prim_sound (g : MGraph) (hd : g.directed = false) (ns : List Nat) (es : List EdgeEl)
     (feN feE : String) (h : judgeStream g true ns es feN feE = none) :
     ns = g.nodes ∧ ∃ S, absEdges ns es = some S ∧ PrimAccepted g.nodes g.edges bruteBound S := by
-  unfold judgeStream at h
+  unfold judgeStream judgeStreamK at h
   split at h
   · cases h
   · rename_i hns
@@ -494,7 +495,7 @@ theorem C12_judge_prim_directed_sound (g : MGraph) (hd : g.directed = true) (ns 
     (es : List EdgeEl) (feN feE : String) (h : judgeStream g true ns es feN feE = none) :
     ns = g.nodes ∧ ∃ S, absEdges ns es = some S ∧
       ((g.nodes = [] ∧ S = []) ∨ ∃ r rest, g.nodes = r :: rest ∧ DirPrimTree g.edges r S) := by
-  unfold judgeStream at h
+  unfold judgeStream judgeStreamK at h
   split at h
   · cases h
   · rename_i hns
@@ -712,5 +713,280 @@ theorem C12_accepted_case_w4 (v : View) (er : List (Nat × Nat × Nat)) (hv : vi
 
 /-! non-vacuity of the checks: the three example views pass -/
 example : viewFailure exView = none ∧ viewFailure dirView1 = none ∧ viewFailure dirView2 = none := by decide
+
+/-! Part 12 — wave 6: the corners
+
+(a) float weights that are not numbers are judged by KEYS; that this is the judgement of the scores
+themselves rests on two facts proved here: a minimum spanning forest depends on the order of the
+weights only, and `MinScored`'s documented total order is the (reversed) order of the keys.
+(b) the judge theorems of Part 1 / Part 9 hold for every collecting kind of the `fe=` field.
+(c) `MaxScored` (same file, `src/scored.rs`) is the order of the keys with NaN least.
+(d) run-time checks of the new hypotheses. -/
+
+/-- **Order invariance.**  Re-weighing every edge by a strictly increasing function keeps exactly the
+same minimum spanning forests: `M` (unused edges `R`) is a minimum spanning forest of `E` iff the
+re-weighed `M` is one of the re-weighed `E`.  Hence ANY assignment of integer keys to float-like
+scores that is strictly increasing along the order `MinScored` sorts by judges the same streams; the
+driver's `scoreKey` (`-∞ ↦ -10^30`, finite `x ↦ x`, `+∞ ↦ 10^30`, NaN ↦ `10^30 + 1`) is one. -/
+theorem C12_msf_order_invariant (f : Int → Int) (hf : ∀ x y, x < y → f x < f y) (E M R : List Edge)
+    (hperm : (M ++ R).Perm E) :
+    MinSpanningForest (E.map (rew f)) (M.map (rew f)) ↔ MinSpanningForest E M :=
+  msf_order_invariant hf E M R hperm
+
+/-- the hypothesis "strictly increasing" cannot be weakened to "non-decreasing": collapsing two
+weights makes a non-minimum forest minimum (triangle-free witness: two parallel edges 1 and 2, the
+forest that uses the heavier one) -/
+theorem C12_msf_order_invariant_monotone_false_witness :
+    ∃ (f : Int → Int) (E M R : List Edge), (∀ x y, x ≤ y → f x ≤ f y) ∧ (M ++ R).Perm E ∧
+      MinSpanningForest (E.map (rew f)) (M.map (rew f)) ∧ ¬ MinSpanningForest E M := by
+  refine ⟨fun _ => 0, [⟨0, 0, 1, 1⟩, ⟨1, 0, 1, 2⟩], [⟨1, 0, 1, 2⟩], [⟨0, 0, 1, 1⟩], fun _ _ _ => Int.le_refl _, ?_, ?_, ?_⟩
+  · exact (List.Perm.swap _ _ _)
+  · have h : judgeForest [0, 1] ([⟨0, 0, 1, 1⟩, ⟨1, 0, 1, 2⟩].map (rew fun _ => 0)) 12 [(0, 1, 0)] = none := by decide
+    obtain ⟨M, R, hp, hd, hm⟩ := (C12_judge_iff [0, 1] _ 12 [(0, 1, 0)] (by decide) (by decide)).mp h
+    -- every one-edge sub-multiset denoted by `(0, 1, 0)` has the same weight and endpoints; use the
+    -- cycle-property characterisation directly instead
+    refine (C12_cycle_property_iff_min _ _ ([⟨0, 0, 1, 1⟩].map (rew fun _ => 0)) (List.Perm.swap _ _ _)).mpr ?_
+    refine ⟨C12_forestMust_sound _ (by decide), ?_, cycleCert_sound (by decide)⟩
+    intro a b hc
+    have hs : spanMust ([⟨0, 0, 1, 1⟩, ⟨1, 0, 1, 2⟩].map (rew fun _ => 0)) ([⟨1, 0, 1, 2⟩].map (rew fun _ => 0)) = true := by decide
+    exact Conn.of_edges (fun e he => by
+      have := (List.all_eq_true.mp hs) e he
+      exact connQ_true_iff.mp (by simpa using this)) hc
+  · intro hmin
+    have hcp := C12_min_cycle_property _ _ [⟨0, 0, 1, 1⟩] (List.Perm.swap _ _ _) hmin
+    have := hcp ⟨0, 0, 1, 1⟩ (List.mem_singleton.mpr rfl) (by decide) [] ⟨1, 0, 1, 2⟩ [] rfl
+      (by intro hc; have h01 := conn_nil hc; exact absurd h01 (by decide))
+    exact absurd this (by decide)
+
+/-- non-vacuity of `C12_msf_order_invariant`: doubling-plus-one is strictly increasing -/
+example : ∀ x y : Int, x < y → (fun z => 2 * z + 1) x < (fun z => 2 * z + 1) y := by
+  intro x y h; show 2 * x + 1 < 2 * y + 1; omega
+
+/-- **`MinScored::cmp` is the reversed order of the keys** (three-valued; `C12_minscored_key_embedding`
+is its `<=` shadow): finite scores by value, `-∞` below, `+∞` above, NaN greatest — "last in the
+MinScore order", as `src/scored.rs` documents -/
+theorem C12_minscored_cmp_keys (a b : SP.Score) (ha : scoreInRangeB a = true) (hb : scoreInRangeB b = true) :
+    SP.scoreCmp a b = cmpInt (scoreKey b) (scoreKey a) :=
+  scoreCmp_eq_cmpInt a b ha hb
+
+/-- **`MaxScored::cmp` is the order of the keys `maxKey`**: NaN is the LEAST score (so it is again
+the last one a max-heap pops) -/
+theorem C12_maxscored_cmp_keys (a b : SP.Score) (ha : scoreInRangeB a = true) (hb : scoreInRangeB b = true) :
+    maxCmp a b = cmpInt (maxKey a) (maxKey b) :=
+  maxCmp_eq_cmpInt a b ha hb
+
+/-- hence both are total preorders: `cmp b a` is `cmp a b` reversed, and `<=` is transitive — what
+`BinaryHeap` needs of `Ord` -/
+theorem C12_scored_total_order (a b c : SP.Score) (ha : scoreInRangeB a = true) (hb : scoreInRangeB b = true)
+    (hc : scoreInRangeB c = true) :
+    (SP.scoreCmp a b = (match SP.scoreCmp b a with | .less => .greater | .equal => .equal | .greater => .less)) ∧
+    (maxCmp a b = (match maxCmp b a with | .less => .greater | .equal => .equal | .greater => .less)) ∧
+    (SP.scoreCmp a b ≠ .greater → SP.scoreCmp b c ≠ .greater → SP.scoreCmp a c ≠ .greater) ∧
+    (maxCmp a b ≠ .greater → maxCmp b c ≠ .greater → maxCmp a c ≠ .greater) := by
+  rw [scoreCmp_eq_cmpInt a b ha hb, scoreCmp_eq_cmpInt b a hb ha, scoreCmp_eq_cmpInt b c hb hc,
+    scoreCmp_eq_cmpInt a c ha hc, maxCmp_eq_cmpInt a b ha hb, maxCmp_eq_cmpInt b a hb ha,
+    maxCmp_eq_cmpInt b c hb hc, maxCmp_eq_cmpInt a c ha hc]
+  refine ⟨cmpInt_flip _ _, cmpInt_flip _ _, ?_, cmpInt_le_trans _ _ _⟩
+  -- reversed keys: `a ≤ b ≤ c` in MinScored's order is `key c ≤ key b ≤ key a`
+  intro h1 h2
+  rw [cmpInt_ne_greater_iff] at h1 h2 ⊢
+  omega
+
+/-- the two orders differ exactly on NaN: `MinScored` is not `MaxScored` with the arguments swapped
+(the rewrite "`MinScored::cmp a b = MaxScored::cmp b a`" is wrong) -/
+theorem C12_minscored_is_not_swapped_maxscored_witness :
+    SP.scoreCmp .nan (.fin 0) = .less ∧ maxCmp (.fin 0) .nan = .greater ∧
+    ∀ a b, a ≠ .nan → b ≠ .nan → SP.scoreCmp a b = maxCmp b a := by
+  refine ⟨by decide, by decide, ?_⟩
+  intro a b ha hb
+  unfold SP.scoreCmp SP.minScoredCmp maxCmp maxScoredCmp
+  cases a <;> cases b
+  case fin.fin x y =>
+    simp only [SP.Score.eq, SP.Score.lt]
+    by_cases h1 : x = y
+    · subst h1; simp
+    · have h1' : ¬ y = x := fun h => h1 h.symm
+      by_cases h2 : x < y
+      · have h3 : ¬ y < x := by omega
+        simp [h1, h1', h2, h3]
+      · have h3 : y < x := by omega
+        simp [h1, h1', h2, h3]
+  all_goals first
+    | (exfalso; exact ha rfl)
+    | (exfalso; exact hb rfl)
+    | decide
+    | (simp [SP.Score.eq, SP.Score.lt]; done)
+
+/-- **Judge soundness for every collecting kind** (`fe=` g, s, d, b, m): the clauses of Part 1 do not
+depend on which graph type the stream was collected into -/
+theorem C12_judgeK_kruskal_sound (kind : String) (g : MGraph) (ns : List Nat) (es : List EdgeEl)
+    (feN feE : String) (h : judgeStreamK kind g false ns es feN feE = none) :
+    ns = g.nodes ∧ ∃ S, absEdges ns es = some S ∧
+      ∃ M R, Accepted g.nodes g.edges bruteBound S M R ∧ MinSpanningForest g.edges M := by
+  unfold judgeStreamK at h
+  split at h
+  · cases h
+  · rename_i hns
+    refine ⟨by simpa using hns, ?_⟩
+    split at h
+    · cases h
+    · rename_i S hS
+      split at h
+      · cases h
+      · simp only [Bool.false_eq_true, if_false] at h
+        obtain ⟨M, R, acc⟩ := judgeForest_sound h
+        exact ⟨S, hS, M, R, acc, acc.spanningForest,
+          cycleProperty_minimal acc.perm acc.acyclic acc.spanning acc.cycleProp⟩
+
+theorem C12_judgeK_prim_sound (kind : String) (g : MGraph) (ns : List Nat) (es : List EdgeEl)
+    (feN feE : String) (h : judgeStreamK kind g true ns es feN feE = none) :
+    ns = g.nodes ∧ ∃ S, absEdges ns es = some S ∧
+      (g.directed = false → PrimAccepted g.nodes g.edges bruteBound S) ∧
+      (g.directed = true → (g.nodes = [] ∧ S = []) ∨ ∃ r rest, g.nodes = r :: rest ∧ DirPrimTree g.edges r S) := by
+  unfold judgeStreamK at h
+  split at h
+  · cases h
+  · rename_i hns
+    refine ⟨by simpa using hns, ?_⟩
+    split at h
+    · cases h
+    · rename_i S hS
+      split at h
+      · cases h
+      · refine ⟨S, hS, fun hd => ?_, fun hd => ?_⟩
+        · simp only [if_true, hd, Bool.false_eq_true, if_false] at h
+          exact judgePrimEdges_sound h
+        · simp only [if_true, hd] at h
+          exact (judgePrimDirected_iff g.nodes g.edges S).mp h
+
+/-- what the `from_elements` check of kind `b` accepts beyond capacity is the documented panic only;
+of kind `m`, a rearrangement of the stream's edges as unordered pairs -/
+theorem C12_feOk_kinds (ns : List Nat) (S : List (Nat × Nat × Int)) (feN feE : String) :
+    ((ns.length > 255 ∨ S.length > 255) → feOk "b" ns S feN feE = none → feN = "panic") ∧
+    (feOk "m" ns S feN feE = none → parseNats feN = ns ∧
+      ∃ got, parseTriples feE = some got ∧ (got.map normTriple).Perm (S.map normTriple)) := by
+  constructor
+  · intro hbig h
+    unfold feOk at h
+    have hc : (("b" : String) == "b" && (decide (ns.length > 255) || decide (S.length > 255))) = true := by
+      rcases hbig with h1 | h1 <;> simp [h1]
+    rw [if_pos hc] at h
+    split at h
+    · rename_i hp; simpa using hp
+    · cases h
+  · intro h
+    unfold feOk at h
+    have hmb : (("m" : String) == "b") = false := by decide
+    have hc : ¬ ((("m" : String) == "b" && (decide (ns.length > 255) || decide (S.length > 255))) = true) := by
+      rw [hmb]; simp
+    rw [if_neg hc] at h
+    split at h
+    · cases h
+    · split at h
+      · cases h
+      · rename_i hn
+        refine ⟨by simpa using hn, ?_⟩
+        simp only [show (("m" : String) == "m") = true by decide, if_true] at h
+        split at h
+        · cases h
+        · rename_i got hg
+          split at h
+          · rename_i hp
+            exact ⟨got, hg, List.isPerm_iff.mp hp⟩
+          · cases h
+
+/-! run-time checks of the hypotheses (wave 6) -/
+
+/-- every weight the driver reads from a stream token is the key of an in-range score (hypothesis of
+`C12_minscored_cmp_keys`; anything else is a malformed token, i.e. `SPECFAIL`) -/
+theorem C12_token_range_check (s : String) (a b : Nat) (w : Int) (h : parseTok s = .edge a b w) :
+    ∃ x : SP.Score, scoreInRangeB x = true ∧ w = scoreKey x := by
+  unfold parseTok at h
+  split at h
+  · split at h <;> cases h
+  · split at h
+    · split at h
+      · split at h
+        · rename_i x _ _ _
+          split at h
+          · rename_i hr
+            cases h
+            exact ⟨_, hr, rfl⟩
+          · cases h
+        · cases h
+      · cases h
+    · cases h
+
+/-- every weight of the judged graph is an integer of the `edges=` field or the key of a score of the
+`sw=` field, which the driver checked to be in range -/
+theorem C12_special_weights_check (sw : List (Nat × SP.Score)) (v : View)
+    (hsw : (sw.all fun x => scoreInRangeB x.2) = true) (e : Edge) (he : e ∈ (applySW sw v).g.edges) :
+    (∃ e0 ∈ v.g.edges, e = e0) ∨ ∃ x, scoreInRangeB x = true ∧ e.w = scoreKey x := by
+  rcases applySW_weights sw v e he with h | ⟨x, ⟨k, hk⟩, hw⟩
+  · exact Or.inl h
+  · exact Or.inr ⟨x, (List.all_eq_true.mp hsw) (k, x) hk, hw⟩
+
+/-- `applySW` leaves nodes, direction, edge ids and endpoints alone -/
+theorem C12_special_weights_shape (sw : List (Nat × SP.Score)) (v : View) :
+    (applySW sw v).g.nodes = v.g.nodes ∧ (applySW sw v).g.directed = v.g.directed ∧
+    (applySW sw v).g.edges.map (fun e => (e.id, e.src, e.tgt)) = v.g.edges.map (fun e => (e.id, e.src, e.tgt)) :=
+  applySW_shape sw v
+
+/-- an `ok` verdict on a `graph` line: the named side conditions hold for the judged view and no
+`edges(a)` entry reports a source other than `a` (so the Prim mirror, which pushes `(a, other)`, sees
+what the iterator sees) -/
+theorem C12_graph_ok_check (enc : String) (inc : List (Nat × List Nat)) (raw : View)
+    (h : (graphVerdictOf enc inc raw).2 = .ok) :
+    (graphVerdictOf enc inc raw).1.ok = true ∧ viewFailure (graphVerdictOf enc inc raw).1.v = none ∧
+      (graphVerdictOf enc inc raw).1.incAny = false := by
+  generalize hr : graphVerdictOf enc inc raw = r at h ⊢
+  unfold graphVerdictOf at hr
+  dsimp only at hr
+  split at hr
+  · subst hr; cases h
+  · rename_i hw
+    split at hr
+    · split at hr
+      · subst hr; cases h
+      · split at hr <;> (subst hr; cases h)
+    · rename_i hi
+      split at hr
+      · subst hr; cases h
+      · subst hr
+        exact ⟨rfl, hw, by simpa using hi⟩
+
+/-- … and on a whole `graph` line -/
+theorem C12_graph_line_ok_check (req : List String) (h : (graphVerdict req).2 = .ok) :
+    (graphVerdict req).1.ok = true ∧ viewFailure (graphVerdict req).1.v = none ∧
+      (graphVerdict req).1.incAny = false := by
+  generalize hr : graphVerdict req = r at h ⊢
+  unfold graphVerdict at hr
+  split at hr
+  · subst hr; cases h
+  · dsimp only at hr
+    split at hr
+    · subst hr; cases h
+    · subst hr
+      exact C12_graph_ok_check _ _ _ h
+
+/-- without flagged entries the view Prim's mirror runs on is the reported view -/
+theorem C12_prim_view_check (v : View) : primView [] v = v := primView_nil v
+
+/-- the self-loop surgery applied to `UndirectedAdaptor` views only removes entries, and none from a
+row without self-loops -/
+theorem C12_dedup_check (a : Nat) (row : List (Nat × Nat)) :
+    (dedupRow a [] row).Sublist row ∧ ((∀ oe ∈ row, oe.1 ≠ a) → dedupRow a [] row = row) :=
+  ⟨dedupRow_sublist a [] row, dedupRow_no_loops a [] row⟩
+
+/-! non-vacuity (wave 6): a triangle with a NaN edge and a parallel pair; the judge, on keys, accepts
+the forest that avoids NaN and rejects the one that uses it; `mscmp` answers; the graph verdict -/
+def nanE : List Edge := [⟨0, 0, 1, scoreKey .nan⟩, ⟨1, 1, 2, 2⟩, ⟨2, 0, 2, 3⟩, ⟨3, 1, 2, scoreKey .pinf⟩]
+example : judgeForest [0, 1, 2] nanE 12 [(1, 2, 2), (0, 2, 3)] = none := by decide
+example : (judgeForest [0, 1, 2] nanE 12 [(0, 1, scoreKey .nan), (1, 2, 2)]).isSome = true := by decide
+example : cmpAnswer (SP.scoreCmp .nan (.fin 1)) = "cmp=l pcmp=l eq=0 ne=1 lt=1 le=1 gt=0 ge=0 max=b min=a" := by decide
+example : cmpAnswer (maxCmp .nan (.fin 1)) = "cmp=l pcmp=l eq=0 ne=1 lt=1 le=1 gt=0 ge=0 max=b min=a" := by decide
+example : (([(7, 5, 1)] : List (Nat × Nat × Int)).map normTriple).isPerm ([(5, 7, 1)].map normTriple) = true ∧
+    (([(7, 5, 1)] : List (Nat × Nat × Int)).map normTriple).isPerm ([(5, 7, 2)].map normTriple) = false := by decide
+example : dedupRow 3 [] [(3, 9), (4, 1), (3, 9), (3, 8)] = [(3, 9), (4, 1), (3, 8)] := by decide
 
 end PetgraphModel.C12T
